@@ -64,8 +64,10 @@ impl SplitPacket {
                     true => 1248,
                 };
 
+                // The decompressed size and the CRC32 sum are only present in the first packet of the
+                // response
                 let is_compressed = ((id >> 31) & 1u32) == 1u32;
-                let decompressed = match is_compressed {
+                let decompressed = match is_compressed && number == 0 {
                     false => None,
                     true => Some((buffer.read()?, buffer.read()?)),
                 };
